@@ -22,3 +22,5 @@ open Csproto
 #print axioms Bridge.lazyAccessors_ok
 #print axioms Bridge.accessFD_mismatch
 #print axioms Bridge.maxTagValue_ok
+#print axioms Csproto.C13.sint32_range
+#print axioms Csproto.C13.sint32_overflow
